@@ -28,7 +28,11 @@ func walkMatchingCtx(ctx context.Context, ls *ipld.LinkSystem, root cid.Cid, sel
 	if err != nil {
 		return fmt.Errorf("compile selector: %w", err)
 	}
-	rootNode, err := loadRoot(ls, root)
+	// the root is loaded as a plain dag-pb node even when the link system
+	// reifies what it loads (the selector does the interpreting of the root)
+	plain := *ls
+	plain.NodeReifier = nil
+	rootNode, err := loadRoot(&plain, root)
 	if err != nil {
 		return err
 	}
